@@ -236,6 +236,32 @@ def c15_cases(workdir, quick=True):
                         "run": 1, "seq": 900, "t": 0})
         finally:
             s.close()
+    # found by model checking ServerStack.tla (a counterexample to Act_TerminalIsFinal / Inv_StatusMatchesOutcome on the
+    # as-coded variant): the run idles (waiting for input), its own workflow timeout ends it, the terminal status write fails
+    # once and sleeps its back-off -- and the deferred idle release, whose idle_since nobody cleared, fires inside that sleep
+    for (label, wf_timeout, idle_timeout) in (("timeout_after_idle/release_inside_write_backoff", 9.8, 10.0),
+                                              ("timeout_after_idle/release_after_write_backoff", 9.0, 10.0)):
+        prog = sc.waiter(None)
+        prog["timeout"] = wf_timeout
+        db = os.path.join(str(workdir), "c15_rel_%s.db" % label.split("/")[1])
+        s = sv.ServerSystem(prog, db_path=db, idle_timeout=idle_timeout, status_faults=1, backoff=(0.5, 3.0))
+        try:
+            s.launch()
+            s.start_handler("h1")
+            s.run_to_end(60000)
+            writes = [{"status": r["status"], "ok": bool(r["ok"])} for r in s.trace if r["e"] == "status_write"]
+            failed_at = [r["seq"] for r in s.trace if r["e"] == "status_write" and not r["ok"]]
+            done_at = [r["seq"] for r in s.trace if r["e"] == "status_write" and r["ok"] and r["status"] in ("completed", "failed", "cancelled")]
+            aborts = [r["seq"] for r in s.trace if r["e"] == "abort"]
+            row = s.handler_row("h1")
+            out.append({"e": "case", "label": label, "expect": "failed", "faults": 1, "store": "sqlite",
+                        "status": row["status"], "has_result": row["has_result"], "result": row["result"],
+                        "has_error": row["error"] != "", "run_ended": s.live_loops("h1") == 0, "writes": writes,
+                        "aborted_during_terminal_write": bool(failed_at and any(a > failed_at[0] for a in aborts)
+                                                              and not any(d < min(aborts or [1 << 30]) for d in done_at)),
+                        "run": 1, "seq": 950, "t": 0})
+        finally:
+            s.close()
     # a later run in the SAME server process: earlier transient failures must not have used up its retry budget
     db = os.path.join(str(workdir), "c15_second.db")
     s = sv.ServerSystem(sc.pipeline(timeout=50), db_path=db, idle_timeout=1000.0, status_faults=2, backoff=(0.5, 3.0))
